@@ -1,6 +1,8 @@
 package rules
 
 import (
+	"go/token"
+	"go/types"
 	"sort"
 	"strings"
 
@@ -54,6 +56,7 @@ func c08(c *Ctx) {
 	r.Decides("addPod and deletePod perform the same guarded effects on the same accumulators with dual operations and textually identical conditions (the incremental sums are updated by an operation and its exact inverse)")
 	r.Decides("every accumulator touched by addPod/deletePod is re-initialised in AddOrUpdateNodeMetric before the pods are re-added (a metric report rebuilds from scratch)")
 	r.Decides("Filter returns success only as the result of the threshold check or under the enumerated exemptions; an expired metric with scheduling disallowed is rejected; the threshold check rejects as soon as one thresholded resource exceeds its limit")
+	r.Decides("updatePod = deletePod(old)+addPod(new) unless a skip compares everything addPod reads; AddOrUpdatePod/DeletePod always reach the sums and the pod map when a metric is present")
 	r.Declines("the inequality itself and its rounding, equality with a freshly built cache; locking (conditional locking is not modelled)")
 
 	add := c.Fn(loadawarePkg, "nodeInfo", "addPod")
@@ -117,6 +120,8 @@ func c08(c *Ctx) {
 			}
 		}
 	}
+
+	c08events(c, add, del)
 
 	// rebuild resets every accumulator
 	if fn := c.Fn(loadawarePkg, "nodeInfo", "AddOrUpdateNodeMetric"); fn != nil && add != nil {
@@ -210,14 +215,71 @@ func c08(c *Ctx) {
 		}
 	}
 	if fn := c.Fn(loadawarePkg, "usageThresholdsFilterProfile", "generateUsageThresholdsFilterProfile"); fn != nil {
-		r.Rule("EFFECT: generateUsageThresholdsFilterProfile (called concurrently for every node) writes nothing reachable from the plugin-wide profile it is invoked on")
-		es := an.Effects(fn, an.Receiver(fn), nil)
+		c08profile(c, fn)
+	}
+	r.Rule("EFFECT: generateUsageThresholdsFilterProfile (called concurrently for every node) and the estimator's EstimatePod/EstimateNode (called for every pod and node) write nothing reachable from the shared object they are invoked on, directly or through a callee that receives part of it")
+	for _, t := range []struct{ pkg, recv, name, what string }{
+		{loadawarePkg, "usageThresholdsFilterProfile", "generateUsageThresholdsFilterProfile", "node-specific thresholds are written into the shared plugin-wide profile"},
+		{loadawarePkg + "/estimator", "DefaultEstimator", "EstimatePod", "a pod-specific value is written into the estimator shared by all pods"},
+		{loadawarePkg + "/estimator", "DefaultEstimator", "EstimateNode", "a node-specific value is written into the estimator shared by all nodes"},
+	} {
+		fn := c.Fn(t.pkg, t.recv, t.name)
+		if fn == nil {
+			continue
+		}
+		es := an.DeepEffects(fn, an.Receiver(fn), nil, 4)
 		var ss []string
 		for _, e := range es {
 			ss = append(ss, e.String()+" @"+c.InstrPos(e.Instr))
 		}
-		r.Check(len(es) == 0, "EFFECT", fkey(fn)+"/pure", c.Pos(fn.Pos()), "no write through the shared profile", "node-specific thresholds are written into the shared plugin-wide profile: "+strings.Join(ss, "; ")+" — every other node is judged against them afterwards")
+		r.Check(len(es) == 0, "EFFECT", fkey(fn)+"/pure", c.Pos(fn.Pos()), "no write through the shared receiver", t.what+": "+strings.Join(ss, "; ")+" — every later caller sees them")
 	}
+}
+
+// c08profile: the per-node profile defines every field (from the node's annotation or inherited from the plugin profile).
+func c08profile(c *Ctx, fn *ssa.Function) {
+	r := c.R
+	r.Rule("COMPLETE(profile): in generateUsageThresholdsFilterProfile every field of a freshly built usageThresholdsFilterProfile is assigned on every path to the return (customised or inherited from the plugin-wide profile); no field is left at its zero value, which would silently disable that threshold for the node")
+	key := fkey(fn)
+	n := 0
+	for _, b := range fn.Blocks {
+		for _, in := range b.Instrs {
+			al, ok := in.(*ssa.Alloc)
+			if !ok || !al.Heap {
+				continue
+			}
+			st, ok := al.Type().(*types.Pointer).Elem().Underlying().(*types.Struct)
+			if !ok || !strings.HasSuffix(al.Type().String(), "usageThresholdsFilterProfile") {
+				continue
+			}
+			n++
+			for i := 0; i < st.NumFields(); i++ {
+				fname := st.Field(i).Name()
+				idx := i
+				reach := an.Explore(fn, an.After(al), nil, func(x ssa.Instruction) bool {
+					s, ok := x.(*ssa.Store)
+					if !ok {
+						return false
+					}
+					if s.Addr == ssa.Value(al) {
+						return true
+					}
+					fa, ok := s.Addr.(*ssa.FieldAddr)
+					return ok && fa.X == ssa.Value(al) && fa.Field == idx
+				})
+				bad := ""
+				for _, ret := range reach.Returns() {
+					for _, l := range an.Sources(ret.Results[0], nil) {
+						if l == ssa.Value(al) {
+							bad = c.InstrPos(ret)
+						}
+					}
+				}
+				r.Check(bad == "", "COMPLETE", key+"/field/"+fname, c.InstrPos(al), fname+" is assigned on every path", "the per-node profile can be returned (at "+bad+") without its field "+fname+" ever being assigned: a node that customises other thresholds loses the plugin-wide "+fname)
+			}
+		}
+	}
+	r.Floor("COMPLETE", "fresh profiles built", n, 1)
 }
 
 func c08filter(c *Ctx, fn *ssa.Function) {
@@ -273,4 +335,136 @@ func c08filter(c *Ctx, fn *ssa.Function) {
 	if n == 0 {
 		r.Unknown("PATH", key+"/success-exits", c.Pos(fn.Pos()), "no exemption exit found: unknown idiom")
 	}
+}
+
+// c08events: the event entry points keep the sums in step with the pod set.
+func c08events(c *Ctx, add, del *ssa.Function) {
+	r := c.R
+	r.Rule("FRAME(updatePod): updatePod either always performs deletePod(old) followed by addPod(new), or every path that skips them is guarded by comparisons that mention every podAssignInfo field addPod reads (a skipped update may not change anything the sums depend on)")
+	if up := c.Fn(loadawarePkg, "nodeInfo", "updatePod"); up != nil && add != nil {
+		key := fkey(up)
+		reads := map[string]bool{}
+		if len(add.Params) == 2 {
+			for _, b := range add.Blocks {
+				for _, in := range b.Instrs {
+					if fa, ok := in.(*ssa.FieldAddr); ok && fa.X == ssa.Value(add.Params[1]) {
+						reads[fieldNameOf(fa)] = true
+					}
+				}
+			}
+		}
+		r.Floor("FRAME", "podAssignInfo fields read by addPod", len(reads), 3)
+		isOp := func(in ssa.Instruction) bool {
+			cl, ok := in.(ssa.CallInstruction)
+			return ok && (an.ShortCallee(cl.Common()) == "deletePod" || an.ShortCallee(cl.Common()) == "addPod")
+		}
+		// order and arguments of the pair
+		var seq []string
+		for _, cl := range an.Calls(up, false) {
+			switch an.ShortCallee(cl.Common()) {
+			case "deletePod", "addPod":
+				seq = append(seq, an.ShortCallee(cl.Common())+"("+an.Path(cl.Common().Args[1])+")")
+			}
+		}
+		r.Check(strings.Join(seq, ";") == "deletePod(oldPod);addPod(newPod)", "FRAME", key+"/pair", c.Pos(up.Pos()), "deletePod(oldPod) then addPod(newPod)", "updatePod does not consist of deletePod(oldPod) followed by addPod(newPod): "+strings.Join(seq, ";"))
+		reach := an.Explore(up, nil, nil, isOp)
+		skips := reach.Returns()
+		if len(skips) == 0 {
+			r.OK("FRAME", key+"/no-skip", c.Pos(up.Pos()), "every path performs the delete/add pair")
+		} else {
+			compared := map[string]bool{}
+			for _, b := range up.Blocks {
+				ifi, ok := b.Instrs[len(b.Instrs)-1].(*ssa.If)
+				if !ok {
+					continue
+				}
+				for x := range backwardAll(ifi.Cond) {
+					if fa, ok := x.(*ssa.FieldAddr); ok {
+						if _, isP := fa.X.(*ssa.Parameter); isP {
+							compared[fieldNameOf(fa)] = true
+						}
+					}
+				}
+			}
+			var missing []string
+			for f := range reads {
+				if !compared[f] {
+					missing = append(missing, f)
+				}
+			}
+			sort.Strings(missing)
+			r.Check(len(missing) == 0, "FRAME", key+"/no-skip", c.InstrPos(skips[0]), "the skip path compares every field addPod reads", "updatePod can return without deletePod/addPod although these podAssignInfo fields, which addPod reads, are not compared: "+strings.Join(missing, ", ")+" (an update changing only them leaves the sums stale, and the later delete subtracts what was never added)")
+		}
+	}
+
+	r.Rule("PATH(events): in AddOrUpdatePod, with the node alive and a metric present, no return is reachable without addPod or updatePod, and the pod is stored into podInfos; in DeletePod, with a metric present and the pod known, no return is reachable without deletePod and without removing the pod from podInfos")
+	facts := func(fn *ssa.Function) an.Facts {
+		f := an.Facts{}
+		for _, b := range fn.Blocks {
+			for _, in := range b.Instrs {
+				switch x := in.(type) {
+				case *ssa.UnOp:
+					if x.Op == token.MUL && strings.HasSuffix(an.Path(x), ".deleted") {
+						f[x] = an.False
+					}
+				case *ssa.BinOp:
+					if x.Op == token.NEQ && an.IsNilConst(x.Y) && (strings.HasSuffix(an.Path(x.X), ".nodeMetric") || strings.Contains(an.Path(x.X), ".podInfos[")) {
+						f[x] = an.True
+					}
+				}
+			}
+		}
+		return f
+	}
+	if fn := c.Fn(loadawarePkg, "nodeInfo", "AddOrUpdatePod"); fn != nil {
+		key := fkey(fn)
+		f := facts(fn)
+		// oldPod may be nil or not here: drop the podInfos facts
+		for v := range f {
+			if bo, ok := v.(*ssa.BinOp); ok && !strings.HasSuffix(an.Path(bo.X), ".nodeMetric") {
+				delete(f, v)
+			}
+		}
+		reach := an.Explore(fn, nil, f, func(in ssa.Instruction) bool {
+			cl, ok := in.(ssa.CallInstruction)
+			return ok && (an.ShortCallee(cl.Common()) == "updatePod" || an.ShortCallee(cl.Common()) == "addPod")
+		})
+		r.Check(len(f) >= 2 && len(reach.Returns()) == 0, "PATH", key+"/sums-follow", c.Pos(fn.Pos()), "an added or updated pod always reaches addPod/updatePod", sprintf("AddOrUpdatePod can return on a live node with a metric without addPod/updatePod (%d returns reachable, %d conditions recognised)", len(reach.Returns()), len(f)))
+		reach = an.Explore(fn, nil, f, func(in ssa.Instruction) bool {
+			mu, ok := in.(*ssa.MapUpdate)
+			return ok && strings.HasSuffix(an.Path(mu.Map), ".podInfos") && an.Path(mu.Value) == "pod"
+		})
+		r.Check(len(reach.Returns()) == 0, "PATH", key+"/stored", c.Pos(fn.Pos()), "the pod is recorded in podInfos", "AddOrUpdatePod can return on a live node without recording the pod in podInfos (the next metric report would rebuild the sums without it)")
+		// arguments
+		ok := true
+		for _, cl := range an.Calls(fn, false) {
+			switch an.ShortCallee(cl.Common()) {
+			case "addPod":
+				ok = ok && an.Path(cl.Common().Args[1]) == "pod"
+			case "updatePod":
+				ok = ok && strings.Contains(an.Path(cl.Common().Args[1]), ".podInfos[") && an.Path(cl.Common().Args[2]) == "pod"
+			}
+		}
+		r.Check(ok, "PATH", key+"/arguments", c.Pos(fn.Pos()), "addPod(pod) / updatePod(previous entry, pod)", "addPod/updatePod are not called with the new pod (and the previously recorded entry)")
+	}
+	if fn := c.Fn(loadawarePkg, "nodeInfo", "DeletePod"); fn != nil {
+		key := fkey(fn)
+		f := facts(fn)
+		reach := an.Explore(fn, nil, f, func(in ssa.Instruction) bool {
+			cl, ok := in.(ssa.CallInstruction)
+			return ok && an.ShortCallee(cl.Common()) == "deletePod"
+		})
+		r.Check(len(f) >= 3 && len(reach.Returns()) == 0, "PATH", key+"/sums-follow", c.Pos(fn.Pos()), "a deleted pod always reaches deletePod", sprintf("DeletePod can return for a known pod on a node with a metric without deletePod (%d returns reachable, %d conditions recognised)", len(reach.Returns()), len(f)))
+		reach = an.Explore(fn, nil, f, func(in ssa.Instruction) bool {
+			cl, ok := in.(ssa.CallInstruction)
+			return ok && an.IsBuiltinCall(cl.Value(), "delete") && strings.HasSuffix(an.Path(cl.Common().Args[0]), ".podInfos")
+		})
+		r.Check(len(reach.Returns()) == 0, "PATH", key+"/removed", c.Pos(fn.Pos()), "the pod is removed from podInfos", "DeletePod can return for a known pod without removing it from podInfos (the next metric report would re-add it)")
+	}
+	_ = del
+}
+
+func fieldNameOf(fa *ssa.FieldAddr) string {
+	_, f, _, _ := an.FieldOf(fa)
+	return f
 }
